@@ -157,7 +157,7 @@ def c18_tables():
     parts.append(list_s("c18KeepPrefixes", sw[0] if sw else [], "ErrorCleaner._replace_xpath_with_tokens: matches starting with one of these are kept"))
     parts.append(list_s("c18KeepSuffixes", ew[0] if ew else [], "… or ending with one of these"))
     rj = fn(ec.ErrorCleaner._remove_java_content)
-    parts.append(list_s("c18NoiseMarkers", [a[0] for a in call_args(rj, "find") if a], "ErrorCleaner._remove_java_content: a line containing one of these is dropped"))
+    parts.append(list_s("c18NoiseMarkers", list(dict.fromkeys(a[0] for a in call_args(rj, "find") if a)), "ErrorCleaner._remove_java_content: a line containing one of these is dropped"))
     parts.append(list_s("c18ExcPrefixes", [a[0] for a in call_args(rj, "startswith") if a], "ErrorCleaner._remove_java_content: exception-name prefixes removed (in this order)"))
     ovf = fn(ec.ErrorCleaner.odk_validate)
     phrase = ""
